@@ -208,6 +208,29 @@ func leaseCaseMockPrev(log *leaseLog, gen int, kind string, n int, index int, ou
 	log.f("endcase")
 }
 
+// leaseCaseProvRes: the v1 ProvisionedResource through a sequence of calls; after each call the two getters
+func leaseCaseProvRes(log *leaseLog, m uint32, ops []string) {
+	log.f("case 1 mock provres %d 0 %s", m, strings.Join(ops, " "))
+	r := b1.NewProvisionedResource(m)
+	r.AddListener(leaseListener(log))
+	ctx := context.Background()
+	for _, op := range ops {
+		switch op {
+		case "provision":
+			_ = r.Provision(ctx)
+		case "start":
+			_ = r.Start(ctx)
+		case "stop":
+			r.Stop()
+		case "giveme":
+			r.GiveMe(m/2 + 3)
+		}
+		log.f("caps %d %d", r.Capacity(), r.MaxCapacity())
+	}
+	log.f("ret 1")
+	log.f("endcase")
+}
+
 // ----- SDK level: real BlockBlobURL on an in-process transport -----
 
 type fakeTransport struct {
@@ -366,6 +389,23 @@ func RunLease(t *testing.T, seed int64, thorough bool, out io.Writer) {
 			}
 			leaseCaseSDK(log, gen, "create", n, 0, outs)
 		}
+	}
+	// the v1 ProvisionedResource: every sequence of up to three calls, for a few capacities
+	provOps := []string{"provision", "start", "giveme", "stop"}
+	for _, m := range []uint32{0, 1, 7, 1000, 4294967295} {
+		var rec func(prefix []string)
+		rec = func(prefix []string) {
+			if len(prefix) > 0 {
+				leaseCaseProvRes(log, m, prefix)
+			}
+			if len(prefix) == 3 {
+				return
+			}
+			for _, o := range provOps {
+				rec(append(append([]string{}, prefix...), o))
+			}
+		}
+		rec(nil)
 	}
 	log.f("eof")
 }
